@@ -1,4 +1,10 @@
 #![cfg_attr(all(nightly, test), feature(test))]
+#![cfg_attr(kani, recursion_limit = "1024")]
+#![cfg_attr(kani, feature(allocator_api))]
+
+#[cfg(kani)]
+#[path = "/verif/harness/shim/mod_queue.rs"]
+mod verif_shim;
 
 mod atomic;
 
